@@ -11,6 +11,7 @@ package main
 //			env := newEnv4Func(env, ...) //   allocFirst : first statement, Outer = the captured env
 //			...
 //			env.freeEnv4Func()           //   frees      : released, and no return before the release
+//			                             //   reachable  : not in the default clause of a switch listing all optimized kinds
 //			return
 //		})
 //	}
@@ -33,6 +34,73 @@ type c06Site struct {
 	file                                 string
 	line                                 int
 	allocFirst, marks, frees, outerParam bool
+	reachable                            bool // false: inside the default clause of a switch over ALL optimized kinds
+}
+
+// c06OptimizedKinds parses base/reflect/reflect.go: the kinds listed by IsOptimizedKind.
+// funcCreate (fast/function.go) enters the funcXretY specialisations only when every parameter
+// and result kind satisfies IsOptimizedKind.
+func c06OptimizedKinds(repo string) (map[string]bool, error) {
+	fset := token.NewFileSet()
+	f, err := parser.ParseFile(fset, filepath.Join(repo, "base", "reflect", "reflect.go"), nil, 0)
+	if err != nil {
+		return nil, err
+	}
+	kinds := map[string]bool{}
+	for _, d := range f.Decls {
+		fd, ok := d.(*ast.FuncDecl)
+		if !ok || fd.Name.Name != "IsOptimizedKind" || fd.Body == nil {
+			continue
+		}
+		ast.Inspect(fd.Body, func(n ast.Node) bool {
+			if cc, ok := n.(*ast.CaseClause); ok {
+				for _, e := range cc.List {
+					if sel, ok := e.(*ast.SelectorExpr); ok {
+						kinds[sel.Sel.Name] = true
+					}
+				}
+			}
+			return true
+		})
+	}
+	if len(kinds) == 0 {
+		return nil, fmt.Errorf("IsOptimizedKind not found in base/reflect/reflect.go")
+	}
+	return kinds, nil
+}
+
+// c06Unreachable: pos lies in the default clause of a switch on a plain identifier whose other
+// clauses list every optimized kind
+func c06Unreachable(sw *ast.SwitchStmt, pos token.Pos, optimized map[string]bool) bool {
+	if _, ok := sw.Tag.(*ast.Ident); !ok {
+		return false
+	}
+	listed := map[string]bool{}
+	inDefault := false
+	for _, st := range sw.Body.List {
+		cc, ok := st.(*ast.CaseClause)
+		if !ok {
+			continue
+		}
+		if cc.List == nil {
+			inDefault = cc.Pos() <= pos && pos < cc.End()
+			continue
+		}
+		for _, e := range cc.List {
+			if sel, ok := e.(*ast.SelectorExpr); ok {
+				listed[sel.Sel.Name] = true
+			}
+		}
+	}
+	if !inDefault {
+		return false
+	}
+	for k := range optimized {
+		if !listed[k] {
+			return false
+		}
+	}
+	return true
 }
 
 func c06IsCall(e ast.Expr, recv, name string) bool {
@@ -58,6 +126,10 @@ func c06ExtractSites(repo string) ([]c06Site, error) {
 		return nil, err
 	}
 	sort.Strings(files)
+	optimized, err := c06OptimizedKinds(repo)
+	if err != nil {
+		return nil, err
+	}
 	var sites []c06Site
 	fset := token.NewFileSet()
 	for _, fn := range files {
@@ -70,9 +142,18 @@ func c06ExtractSites(repo string) ([]c06Site, error) {
 			return nil, err
 		}
 		var stack []ast.Node // enclosing FuncLit / FuncDecl
+		var switches []*ast.SwitchStmt
 		var visit func(n ast.Node) bool
 		visit = func(n ast.Node) bool {
 			switch x := n.(type) {
+			case *ast.SwitchStmt:
+				switches = append(switches, x)
+				if x.Init != nil {
+					ast.Inspect(x.Init, visit)
+				}
+				ast.Inspect(x.Body, visit)
+				switches = switches[:len(switches)-1]
+				return false
 			case *ast.FuncLit:
 				stack = append(stack, x)
 				ast.Inspect(x.Body, visit)
@@ -90,7 +171,12 @@ func c06ExtractSites(repo string) ([]c06Site, error) {
 				if !c06IsCall(x, "", "newEnv4Func") || len(stack) == 0 {
 					return true
 				}
-				site := c06Site{file: base, line: fset.Position(x.Pos()).Line}
+				site := c06Site{file: base, line: fset.Position(x.Pos()).Line, reachable: true}
+				for _, sw := range switches {
+					if c06Unreachable(sw, x.Pos(), optimized) {
+						site.reachable = false
+					}
+				}
 				l, isLit := stack[len(stack)-1].(*ast.FuncLit)
 				if isLit && len(l.Body.List) > 0 {
 					// allocFirst: `env := newEnv4Func(env, ...)` is the first statement
@@ -172,7 +258,7 @@ func c06Extract(repo, genDir string) error {
 	}
 	var sb strings.Builder
 	sb.WriteString("/- REGENERATED by harness/c06extract.go from fast/*.go: every function literal calling newEnv4Func -/\n")
-	sb.WriteString("namespace Gen.C06\n\nstructure Site where\n  file : String\n  line : Nat\n  allocFirst : Bool\n  marks : Bool\n  frees : Bool\n  outerParam : Bool\n  deriving Repr\n\n")
+	sb.WriteString("namespace Gen.C06\n\nstructure Site where\n  file : String\n  line : Nat\n  allocFirst : Bool\n  marks : Bool\n  frees : Bool\n  outerParam : Bool\n  reachable : Bool\n  deriving Repr\n\n")
 	const chunk = 64
 	nchunks := 0
 	for i := 0; i < len(sites); i += chunk {
@@ -187,7 +273,7 @@ func c06Extract(repo, genDir string) error {
 			if j == end-1 {
 				sep = ""
 			}
-			fmt.Fprintf(&sb, "  ⟨%q, %d, %v, %v, %v, %v⟩%s\n", s.file, s.line, s.allocFirst, s.marks, s.frees, s.outerParam, sep)
+			fmt.Fprintf(&sb, "  ⟨%q, %d, %v, %v, %v, %v, %v⟩%s\n", s.file, s.line, s.allocFirst, s.marks, s.frees, s.outerParam, s.reachable, sep)
 		}
 		sb.WriteString("]\n\n")
 		nchunks++
